@@ -1,12 +1,15 @@
 // C15 harness: Row::freespace and Circuit::computeRows from /repo's working tree
 //   freespace gen grid W H K          exhaustive: rows [0,w)x[0,h) w<=W,h<=H, up to K obstacles on the grid [-1,w+1]x[-1,h+1]
 //   freespace gen rand SEED COUNT
+//   freespace gen seam SEED COUNT     Circuit::computeRows on rows given in pieces of one y that abut exactly (see below)
 //   freespace run < cases
 // case lines:  "FS minX maxX minY maxY orient nobs (minX maxX minY maxY)*"
 //              "CR nrows (minX maxX minY maxY orient)* nextra (rect)* ncells (x y w h orient fixed obstruction)*"
 // result: "minX maxX minY maxY orient;..." then " # " and the harness's own column-scan verdict (OK or BAD reason)
 #include "vh.hpp"
 #include "coloquinte.hpp"
+#include <algorithm>
+#include <array>
 #include <set>
 using namespace coloquinte;
 
@@ -90,6 +93,57 @@ int main(int argc, char **argv) {
         }
         printf("\n");
       }
+    }
+    return 0;
+  }
+  if (mode == "gen" && std::string(argv[2]) == "seam") {
+    // Circuit::computeRows on rows given in PIECES of one y: 1-3 bands, each cut into 1-3 pieces that abut exactly (75 %: one ends at X, the next
+    // starts at X), leave a gap (1 or one site) or overlap by one site (5 %); the pieces of a band have orientations of their own (different in
+    // 70 %); order in rows(): left to right, right to left, or all rows shuffled.  Every seam X gets one of: nothing on it, a MOVABLE cell over it, a
+    // FIXED cell that is no obstruction over it, a fixed OBSTRUCTION over it / ending exactly at X / starting exactly at X / an extra obstacle
+    // over it; plus 0-3 random cells and 0-1 random extra obstacles.  Every returned segment must belong to ONE row (inside it, its orientation).
+    SplitMix g(strtoull(argv[3], nullptr, 10) ^ 0x5ea3u); long long count = atoll(argv[4]);
+    for (long long it = 0; it < count; ++it) {
+      long long sc = g.coin(80) ? 1 : (1LL << g.uni(3, 18));
+      int nb = (int)g.uni(1, 3); long long rh = g.uni(1, 3) * sc, x0 = g.uni(-4, 4) * sc, y0 = g.uni(-4, 4) * sc;
+      std::vector<std::array<long long, 5>> rows; std::vector<std::array<long long, 7>> cells; std::vector<std::array<long long, 4>> extra;
+      int order = (int)g.uni(0, 2);
+      for (int b = 0; b < nb; ++b) {
+        long long ya = y0 + b * rh + (b > 0 && g.coin(10) ? rh : 0), yb = ya + rh; int np = (int)g.uni(g.coin(85) ? 2 : 1, 3);
+        std::vector<std::array<long long, 5>> band; long long x = x0 + g.uni(0, 3) * sc; int prevo = -1;
+        for (int k = 0; k < np; ++k) {
+          long long w = g.uni(1, 6) * sc; int o = (int)g.uni(0, 7); if (prevo >= 0 && g.coin(70)) while (o == prevo) o = (int)g.uni(0, 7);
+          band.push_back({x, x + w, ya, yb, o}); prevo = o; x += w;
+          if (k + 1 < np) {
+            long long X = x; int join = (int)g.uni(0, 19);
+            if (join >= 15 && join < 19) x += g.coin(50) ? 1 : sc; else if (join == 19) x -= sc;
+            int what = (int)g.uni(0, 7); long long cw = g.uni(2, 4) * sc, off = g.uni(1, cw / sc - 1) * sc, ch = g.coin(80) ? rh : g.uni(1, 2) * rh; static const int up[4] = {0, 1, 4, 5}; int co = g.coin(80) ? up[g.uni(0, 3)] : (int)g.uni(0, 7);
+            bool turn = co == 2 || co == 3 || co == 6 || co == 7; long long dw = turn ? ch : cw, dh = turn ? cw : ch;   // declared size so that the PLACED outline is cw x ch
+            long long cy = ya - (ch > rh && g.coin(50) ? rh : 0);
+            switch (what) {
+              case 0: break;
+              case 1: cells.push_back({X - off, cy, dw, dh, co, 0, (long long)g.coin(50)}); break;                  // movable cell over the seam (obstruction flag irrelevant)
+              case 2: cells.push_back({X - off, cy, dw, dh, co, 1, 0}); break;                                       // fixed, not an obstruction
+              case 3: cells.push_back({X - off, cy, dw, dh, co, 1, 1}); break;                                       // fixed obstruction over the seam
+              case 4: cells.push_back({X - cw, cy, dw, dh, co, 1, 1}); break;                                        // fixed obstruction ending exactly at X
+              case 5: cells.push_back({X, cy, dw, dh, co, 1, 1}); break;                                             // fixed obstruction starting exactly at X
+              case 6: extra.push_back({X - off, X - off + cw, ya + (g.coin(30) ? g.uni(0, rh - 1) : 0), yb}); break;   // extra obstacle over the seam
+              default: break;
+            }
+          }
+        }
+        if (order == 1) std::reverse(band.begin(), band.end());
+        rows.insert(rows.end(), band.begin(), band.end());
+      }
+      if (order == 2) for (size_t i = rows.size(); i > 1; --i) std::swap(rows[i - 1], rows[g.uni(0, i - 1)]);
+      int nx = (int)g.uni(0, 3);
+      for (int i = 0; i < nx; ++i) cells.push_back({x0 + g.uni(-3, 16) * sc, y0 + g.uni(-2, 6) * sc, g.uni(0, 5) * sc, g.uni(0, 4) * sc, g.uni(0, 7), (long long)g.coin(60), (long long)g.coin(60)});
+      if (g.coin(30)) { long long a = x0 + g.uni(-3, 14) * sc, c = y0 + g.uni(-2, 6) * sc; extra.push_back({a, a + g.uni(0, 5) * sc, c, c + g.uni(0, 4) * sc}); }
+      for (size_t i = cells.size(); i > 1; --i) std::swap(cells[i - 1], cells[g.uni(0, i - 1)]);
+      printf("CR %d", (int)rows.size()); for (auto &r : rows) printf(" %lld %lld %lld %lld %d", r[0], r[1], r[2], r[3], (int)r[4]);
+      printf(" %d", (int)extra.size()); for (auto &e : extra) printf(" %lld %lld %lld %lld", e[0], e[1], e[2], e[3]);
+      printf(" %d", (int)cells.size()); for (auto &c : cells) printf(" %lld %lld %lld %lld %d %d %d", c[0], c[1], c[2], c[3], (int)c[4], (int)c[5], (int)c[6]);
+      printf("\n");
     }
     return 0;
   }
